@@ -189,11 +189,11 @@ def _freq_filter(ts, si, b, axis=None, typ="lp"):
         filc = _freq_vector(f, b[0:2], typ="hp") * _freq_vector(f, b[2:4], typ="lp")
     else:
         filc = _freq_vector(f, b, typ=typ)
-    if axis < (ts.ndim - 1):
-        filc = filc[:, np.newaxis]
-    return np.real(
-        np.fft.ifft(np.fft.fft(ts, axis=axis) * fexpand(filc, ns, axis=0), axis=axis)
-    )
+    # the filter is broadcast along the filtered axis, wherever it sits in the array
+    shape = [1] * ts.ndim
+    shape[axis] = ns
+    filc = fexpand(filc, ns, axis=0).reshape(shape)
+    return np.real(np.fft.ifft(np.fft.fft(ts, axis=axis) * filc, axis=axis))
 
 
 def _freq_vector(f, b, typ="lp"):
